@@ -261,8 +261,10 @@ class AddressRange(collections.namedtuple(
 
     def __contains__(self, address):
         address = AddressCell(address)
-        return (self.start.row <= address.row <= self.end.row and
-                self.start.col_idx <= address.col_idx <= self.end.col_idx)
+        # the end row / column of an unbounded range (A:A, 1:1) is 0
+        return (self.start.row <= address.row <= (self.end.row or MAX_ROW) and
+                self.start.col_idx <= address.col_idx <= (
+                    self.end.col_idx or MAX_COL))
 
     @property
     def col_idx(self):
